@@ -41,7 +41,7 @@ def observe (s : State) (tracked : List Nat) : String :=
         let lay := match e.owner with
           | some k => if (spaceOf s k).isSome then toString k else "?"
           | none => "-"
-        toString h ++ ":" ++ ow ++ ":" ++ (if e.indb then "1" else "0") ++ ":" ++ lay
+        toString h ++ ":" ++ ow ++ ":" ++ (if e.indb then "1" else "0") ++ ":" ++ lay ++ ":" ++ (if e.psp then "1" else "0")
   let bs := (sortBy (fun a b => ltStr a.1 b.1) s.blocks).map fun b => sStr b.1 ++ ":" ++ toString b.2.2
   let ls := (sortBy (fun (a b : Lay) => a.tab < b.tab || (a.tab == b.tab && ltStr a.name b.name)) s.layouts).map
     fun l => sStr l.name ++ ":" ++ toString l.br
@@ -70,6 +70,7 @@ def parseOp (f : List String) : Option Op :=
   | ["addlayer", n, sd] => do some (.addLayer (← pStr n) (← sd.toNat?))
   | ["dellayer", n, _] => do some (.delLayer (← pStr n))
   | ["reload", sd] => do some (.reload (← sd.toNat?))
+  | ["foreign", k, e, _] => do some (.foreign (← k.toNat?) (← e.toNat?))
   | _ => none
 
 def created : Op → List Nat
